@@ -13,6 +13,11 @@ must equal the model's closed form.  LAPACK contracts (Q'Q = I, WB = QR, E'E = S
 validated on the loop locals captured by a user callback.
 Oracle (real code only, NumPy formulas independent of pyGAM): gradient of the penalised deviance at coef_
 (analytic + central differences) relative to its parts; closed-form lstsq for normal/identity.
+Entry points (`fit.entrypoints`, the same oracle, in every run): the models left behind by the other public ways of fitting
+are fitted models too — the model kept by gridsearch (keep_best) and every candidate it returns, for several classes incl.
+PoissonGAM with exposure and weights (criterion of the data passed: rate y / e, weight w e); ExpectileGAM.fit_quantile
+ended by tol and by max_iter on fresh and already fitted models (criterion of the model's OWN expectile); fit called with
+positional arguments.  Each is judged at coef_ with the model's own basis, penalty matrix (its lam, penalties) and expectile.
 """
 import multiprocessing as mp
 
@@ -22,6 +27,102 @@ from harness import common
 from harness.gen import fitgen
 
 EPS = np.finfo(float).eps
+
+
+def _oracle(res, B, A, y, wv, keep, coef, dist, link, levels, tau):
+    """NumPy oracle (independent of pyGAM): gradient of the penalised deviance / asymmetric least-squares criterion at
+    `coef` for the model matrix B, penalty A (+ ridge, + constraints), responses y, weights wv and row mask keep; the
+    measures (be_norm, newton_lp, cond, cond_raw, ...) are written into `res`.
+    -> dict(coef (zero when judged as the claim beta = 0), grad, scale, asym), or None (res['status'] set) when not finite"""
+    n = B.shape[0]
+    # (second pass: when coef_ is zero to working precision — no kept row of the model matrix carries information, e.g.
+    # a by-variable that is 0 on every row, so the optimum is exactly 0 and coef_ is rounding noise of the solve — the
+    # fit is judged as the claim "beta = 0": a backward error is meaningless for a zero solution of a zero right-hand side)
+    for attempt in (0, 1):
+        eta = B @ coef
+        mu = fitgen.np_mu(link, levels, eta)
+        g = fitgen.np_grad(link, levels, mu)
+        V = fitgen.np_V(dist, levels, mu)
+        asym = np.ones(n) if tau is None else np.where(y > mu, tau, 1 - tau)
+        wk = wv * keep * asym
+        with np.errstate(all='ignore'):
+            part1 = B.T @ np.where(keep, wk * (y - mu) / (V * g), 0.0)
+            part2 = A @ coef
+            grad = -2 * part1 + 2 * part2
+            scale = 2 * (np.abs(B).T @ np.abs(wk * (y - mu) / (V * g))) + 2 * np.abs(A) @ np.abs(coef) + 1e-300
+            # size of the normal-equation right-hand side B'W^2 z (z = eta + (y - mu) g', W^2 = w / (V g'^2)): the
+            # natural scale of the score equation (the gradient is the difference of two terms of that size)
+            z = eta + (y - mu) * g
+            rhs = B.T @ np.where(keep, wk / (V * g * g) * z, 0.0)
+        res['grad_rel'] = float(np.linalg.norm(grad) / (2 * np.linalg.norm(rhs) + 1e-300))
+        # natural scale of the linear predictor: the larger of |eta| and the working response |z| on the rows in use (for a
+        # fit whose optimum is eta ~ 0 — two nearly identical rows with opposite responses — |eta| alone is rounding noise)
+        with np.errstate(all='ignore'):
+            # (non-identity links: the linear predictor is dimensionless and an absolute change of 1e-6 per row is a
+            # relative change of 1e-6 of the mean: |eta| = |z| = 0 (y = mu at eta = 0) is an exact, not a tiny, scale)
+            lp_floor = 0.0 if link == 'identity' else float(np.sqrt(max(int(np.sum(keep)), 1)))
+            # |z| is measured in the working metric, relative to the largest working weight: a row whose working weight
+            # is negligible (normal / log with mu ~ 1e-8 next to y ~ 1e4: z ~ 1e12) must not set the scale
+            sw = np.sqrt(np.where(keep, np.abs(wk / (V * g * g)), 0.0))
+            swmax = float(sw.max()) if sw.size else 0.0
+            zw = float(np.linalg.norm(np.where(keep, sw * z, 0.0)) / swmax) if swmax > 0 and np.isfinite(swmax) else 0.0
+            if not np.isfinite(zw):
+                zw = 0.0
+            res['lp_scale'] = float(max(np.linalg.norm(eta), zw, lp_floor) + 1e-300)
+            res['rhs_norm'] = float(np.linalg.norm(rhs))
+            res['rhs_abs_norm'] = float(np.linalg.norm(np.abs(B).T @ np.where(keep, np.abs(wk / (V * g * g) * z), 0.0)))
+            res['Abeta_abs_norm'] = float(np.linalg.norm(np.abs(A) @ np.abs(coef)))
+        with np.errstate(all='ignore'):
+            W2 = np.where(keep, wk / (V * g * g), 0.0)
+            N = B.T @ (W2[:, None] * B) + A
+            if not (np.isfinite(N).all() and np.isfinite(grad).all()):
+                res['status'] = 'nonfinite-oracle'
+                return None
+            ev = np.linalg.eigvalsh((N + N.T) / 2)
+            res['cond_raw'] = float(ev.max() / max(ev.min(), 1e-300))
+            # conditioning after symmetric diagonal equilibration (N -> D N D, D = diag(N)^-1/2): a column of huge magnitude
+            # (a raw timestamp in a linear term) inflates cond(N) by its square without making the problem any harder for a
+            # QR / SVD based solve, which is invariant to column scaling; thresholds follow the equilibrated number
+            dg = np.sqrt(np.clip(np.diag(N), 1e-300, None))
+            Neq = N / dg[:, None] / dg[None, :]
+            eve = np.linalg.eigvalsh((Neq + Neq.T) / 2)
+            res['cond'] = float(eve.max() / max(eve.min(), 1e-300))
+            # right-hand side measured without cancellation (|B|'W^2|z|): two identical rows with opposite responses have
+            # B'W^2 z = 0 and optimum beta = 0 exactly, and a backward error relative to |rhs| + |N||beta| would be noise / noise
+            rhs_abs_vec = np.abs(B).T @ np.where(keep, np.abs(wk / (V * g * g) * z), 0.0)
+            res['be_norm'] = float(np.linalg.norm(grad) / (2 * (np.linalg.norm(N, 2) * np.linalg.norm(coef) + res['rhs_abs_norm']) + 1e-300))
+            # (numerator less the rounding noise of the gradient itself, 256 eps (|B|'|w r| + |A||beta|) componentwise: with
+            # 1e9-weighted constraint terms or responses of size 1e-8 under the inverse link that noise is not negligible)
+            gnoise = 256 * EPS * np.linalg.norm(scale / dg)
+            res['be_eq'] = float(max(0.0, np.linalg.norm(grad / dg) - gnoise) / (2 * (np.linalg.norm(Neq, 2) * np.linalg.norm(coef * dg) + np.linalg.norm(rhs_abs_vec / dg)) + 1e-300))
+            res['be_comp'] = float(np.max(np.abs(grad) / (2 * (np.abs(N) @ np.abs(coef) + np.abs(rhs)) + 1e-300)))
+            try:
+                delta = np.linalg.solve(Neq, grad / dg / 2) / dg
+                res['newton_lp'] = float(np.linalg.norm(B @ delta) / res['lp_scale'])
+                res['newton_energy'] = float(np.sqrt(abs(delta @ N @ delta) / (abs(coef @ N @ coef) + 1e-300)))
+            except np.linalg.LinAlgError:
+                res['newton_lp'] = res['newton_energy'] = float('nan')
+
+        if attempt == 0:
+            with np.errstate(all='ignore'):
+                zeroish = (np.linalg.norm(eta) <= 1e-9 * res['lp_scale']
+                           and np.linalg.norm(coef) <= max(1e-8, 10 * EPS * res['cond']) * res['lp_scale'])
+            if not zeroish:
+                break
+            res['zero_solution'] = True
+            coef = np.zeros_like(coef)
+    return dict(coef=coef, grad=grad, scale=scale, asym=asym)
+
+
+def _closed_form(res, B, A, y, Wm):
+    """normal / identity: fitted values of the closed-form penalised weighted least-squares solution -> res['closed_form_pred']"""
+    try:
+        Nls = B.T @ (Wm[:, None] * B) + A
+        dls = np.sqrt(np.clip(np.diag(Nls), 1e-300, None))
+        beta_ls = np.linalg.solve(Nls / dls[:, None] / dls[None, :], (B.T @ (Wm * y)) / dls) / dls
+        res['closed_form_pred'] = B @ beta_ls
+    except np.linalg.LinAlgError:
+        pass        # normal matrix singular to working precision: no closed form to compare with (cond counter says so)
 
 
 def _worker(case):
@@ -146,83 +247,11 @@ def _worker(case):
     res['k_rows'] = int(k)
 
     # ---- independent oracle: gradient of the penalised criterion at coef_
-    # (second pass: when coef_ is zero to working precision — no kept row of the model matrix carries information, e.g.
-    # a by-variable that is 0 on every row, so the optimum is exactly 0 and coef_ is rounding noise of the solve — the
-    # fit is judged as the claim "beta = 0": a backward error is meaningless for a zero solution of a zero right-hand side)
     coef_fit = coef
-    for attempt in (0, 1):
-        eta = B @ coef
-        mu = fitgen.np_mu(link, levels, eta)
-        g = fitgen.np_grad(link, levels, mu)
-        V = fitgen.np_V(dist, levels, mu)
-        asym = np.ones(n) if tau is None else np.where(y > mu, tau, 1 - tau)
-        wk = wv * keep * asym
-        with np.errstate(all='ignore'):
-            part1 = B.T @ np.where(keep, wk * (y - mu) / (V * g), 0.0)
-            part2 = A @ coef
-            grad = -2 * part1 + 2 * part2
-            scale = 2 * (np.abs(B).T @ np.abs(wk * (y - mu) / (V * g))) + 2 * np.abs(A) @ np.abs(coef) + 1e-300
-            # size of the normal-equation right-hand side B'W^2 z (z = eta + (y - mu) g', W^2 = w / (V g'^2)): the
-            # natural scale of the score equation (the gradient is the difference of two terms of that size)
-            z = eta + (y - mu) * g
-            rhs = B.T @ np.where(keep, wk / (V * g * g) * z, 0.0)
-        res['grad_rel'] = float(np.linalg.norm(grad) / (2 * np.linalg.norm(rhs) + 1e-300))
-        # natural scale of the linear predictor: the larger of |eta| and the working response |z| on the rows in use (for a
-        # fit whose optimum is eta ~ 0 — two nearly identical rows with opposite responses — |eta| alone is rounding noise)
-        with np.errstate(all='ignore'):
-            # (non-identity links: the linear predictor is dimensionless and an absolute change of 1e-6 per row is a
-            # relative change of 1e-6 of the mean: |eta| = |z| = 0 (y = mu at eta = 0) is an exact, not a tiny, scale)
-            lp_floor = 0.0 if link == 'identity' else float(np.sqrt(max(int(np.sum(keep)), 1)))
-            # |z| is measured in the working metric, relative to the largest working weight: a row whose working weight
-            # is negligible (normal / log with mu ~ 1e-8 next to y ~ 1e4: z ~ 1e12) must not set the scale
-            sw = np.sqrt(np.where(keep, np.abs(wk / (V * g * g)), 0.0))
-            swmax = float(sw.max()) if sw.size else 0.0
-            zw = float(np.linalg.norm(np.where(keep, sw * z, 0.0)) / swmax) if swmax > 0 and np.isfinite(swmax) else 0.0
-            if not np.isfinite(zw):
-                zw = 0.0
-            res['lp_scale'] = float(max(np.linalg.norm(eta), zw, lp_floor) + 1e-300)
-            res['rhs_norm'] = float(np.linalg.norm(rhs))
-            res['rhs_abs_norm'] = float(np.linalg.norm(np.abs(B).T @ np.where(keep, np.abs(wk / (V * g * g) * z), 0.0)))
-            res['Abeta_abs_norm'] = float(np.linalg.norm(np.abs(A) @ np.abs(coef)))
-        with np.errstate(all='ignore'):
-            W2 = np.where(keep, wk / (V * g * g), 0.0)
-            N = B.T @ (W2[:, None] * B) + A
-            if not (np.isfinite(N).all() and np.isfinite(grad).all()):
-                res['status'] = 'nonfinite-oracle'
-                return res
-            ev = np.linalg.eigvalsh((N + N.T) / 2)
-            res['cond_raw'] = float(ev.max() / max(ev.min(), 1e-300))
-            # conditioning after symmetric diagonal equilibration (N -> D N D, D = diag(N)^-1/2): a column of huge magnitude
-            # (a raw timestamp in a linear term) inflates cond(N) by its square without making the problem any harder for a
-            # QR / SVD based solve, which is invariant to column scaling; thresholds follow the equilibrated number
-            dg = np.sqrt(np.clip(np.diag(N), 1e-300, None))
-            Neq = N / dg[:, None] / dg[None, :]
-            eve = np.linalg.eigvalsh((Neq + Neq.T) / 2)
-            res['cond'] = float(eve.max() / max(eve.min(), 1e-300))
-            # right-hand side measured without cancellation (|B|'W^2|z|): two identical rows with opposite responses have
-            # B'W^2 z = 0 and optimum beta = 0 exactly, and a backward error relative to |rhs| + |N||beta| would be noise / noise
-            rhs_abs_vec = np.abs(B).T @ np.where(keep, np.abs(wk / (V * g * g) * z), 0.0)
-            res['be_norm'] = float(np.linalg.norm(grad) / (2 * (np.linalg.norm(N, 2) * np.linalg.norm(coef) + res['rhs_abs_norm']) + 1e-300))
-            # (numerator less the rounding noise of the gradient itself, 256 eps (|B|'|w r| + |A||beta|) componentwise: with
-            # 1e9-weighted constraint terms or responses of size 1e-8 under the inverse link that noise is not negligible)
-            gnoise = 256 * EPS * np.linalg.norm(scale / dg)
-            res['be_eq'] = float(max(0.0, np.linalg.norm(grad / dg) - gnoise) / (2 * (np.linalg.norm(Neq, 2) * np.linalg.norm(coef * dg) + np.linalg.norm(rhs_abs_vec / dg)) + 1e-300))
-            res['be_comp'] = float(np.max(np.abs(grad) / (2 * (np.abs(N) @ np.abs(coef) + np.abs(rhs)) + 1e-300)))
-            try:
-                delta = np.linalg.solve(Neq, grad / dg / 2) / dg
-                res['newton_lp'] = float(np.linalg.norm(B @ delta) / res['lp_scale'])
-                res['newton_energy'] = float(np.sqrt(abs(delta @ N @ delta) / (abs(coef @ N @ coef) + 1e-300)))
-            except np.linalg.LinAlgError:
-                res['newton_lp'] = res['newton_energy'] = float('nan')
-
-        if attempt == 0:
-            with np.errstate(all='ignore'):
-                zeroish = (np.linalg.norm(eta) <= 1e-9 * res['lp_scale']
-                           and np.linalg.norm(coef) <= max(1e-8, 10 * EPS * res['cond']) * res['lp_scale'])
-            if not zeroish:
-                break
-            res['zero_solution'] = True
-            coef = np.zeros_like(coef)
+    orc = _oracle(res, B, A, y, wv, keep, coef, dist, link, levels, tau)
+    if orc is None:
+        return res
+    coef, grad, scale, asym = orc['coef'], orc['grad'], orc['scale'], orc['asym']
     res['coef'] = coef_fit
     # central differences of the criterion along 3 random directions (validates the analytic gradient itself)
     rs = np.random.default_rng(case['seed'] + 1)
@@ -245,14 +274,216 @@ def _worker(case):
         fd.append((num, ana, float(np.abs(scale) @ np.abs(dvec))))
     res['fd'] = fd
     if dist == 'normal' and link == 'identity' and tau is None and not gam.terms.hasconstraint:
-        Wm = wv * keep
-        try:
-            Nls = B.T @ (Wm[:, None] * B) + A
-            dls = np.sqrt(np.clip(np.diag(Nls), 1e-300, None))
-            beta_ls = np.linalg.solve(Nls / dls[:, None] / dls[None, :], (B.T @ (Wm * y)) / dls) / dls
-            res['closed_form_pred'] = B @ beta_ls
-        except np.linalg.LinAlgError:
-            pass        # normal matrix singular to working precision: no closed form to compare with (cond counter says so)
+        _closed_form(res, B, A, y, wv * keep)
+    return res
+
+
+def _oracle_verdict(r):
+    """the stationarity criteria (i) - (iii) and the closed form, on the measures of `_oracle` -> (thr, judged_ii, judged_iii, reason or None)"""
+    thr = max(1e-6, 10 * EPS * r.get('cond_raw', r['cond']))
+    judged_ii = thr <= 1e-3
+    # (iii) is for problems whose raw conditioning comes from the SCALE OF THE COLUMNS (largest column norm >= 1e6 x the median one);
+    # a raw condition number inflated by the working weights (means spread over 12 decades) is genuine ill-conditioning
+    judged_iii = (not judged_ii) and 10 * EPS * r['cond'] <= 1e-3 and r.get('col_ratio', 1.0) >= 1e6
+    oracle_bad = None
+    if not (r['be_norm'] <= 1e-6):
+        oracle_bad = 'normwise backward error of the score equation %.3g > 1e-6' % r['be_norm']
+    elif judged_ii and not (r['newton_lp'] <= thr):
+        oracle_bad = 'remaining Newton step moves the linear predictor by %.3g > %.3g (relative)' % (r['newton_lp'], thr)
+    elif judged_iii and not (r['newton_lp'] <= 1e-3 and r.get('be_eq', 0.0) <= 1e-3):
+        oracle_bad = ('badly scaled but well-posed problem (equilibrated cond %.3g): Newton step moves the linear predictor by %.3g, equilibrated backward error %.3g (> 1e-3)'
+                      % (r['cond'], r['newton_lp'], r.get('be_eq', 0.0)))
+    if 'closed_form_pred' in r and oracle_bad is None:
+        dcf = float(np.abs(r['closed_form_pred'] - r['pred']).max() / (max(np.abs(r['pred']).max(), np.abs(r['closed_form_pred']).max()) + 1e-300))
+        if dcf > max(1e-6, thr):
+            oracle_bad = 'fitted values differ from the closed-form penalised WLS solution by %.3g (relative)' % dcf
+    return thr, judged_ii, judged_iii, oracle_bad
+
+
+# ---------------------------------------------------------------------------------------------------------------
+# fit.entrypoints: fitted models obtained through the OTHER public entry points (a model left behind by gridsearch or
+# by ExpectileGAM.fit_quantile, a fit called with positional arguments) are fitted models too
+# ---------------------------------------------------------------------------------------------------------------
+_ENTRY_CLS = {  # name -> (class, distribution, link, levels)
+    'LinearGAM': ('LinearGAM', 'normal', 'identity', 1), 'LogisticGAM': ('LogisticGAM', 'binomial', 'logit', 1),
+    'PoissonGAM': ('PoissonGAM', 'poisson', 'log', 1), 'GammaGAM': ('GammaGAM', 'gamma', 'log', 1),
+    'InvGaussGAM': ('InvGaussGAM', 'inv_gauss', 'log', 1), 'ExpectileGAM': ('ExpectileGAM', 'normal', 'identity', 1),
+    'GAM normal/log': ('GAM', 'normal', 'log', 1), 'GAM poisson/log': ('GAM', 'poisson', 'log', 1),
+    'GAM gamma/identity': ('GAM', 'gamma', 'identity', 1),
+}
+
+
+def _entry_cases(rng):
+    """the fixed list of entry-point cases of every run (only the data seeds follow the run's seed)"""
+    out = []
+
+    def add(**kw):
+        d = dict(seed=rng.randrange(10 ** 9), model='LinearGAM', terms='ss', n=160, weights='none', exposure=False, y_scale=1.0,
+                 expectile=None, prefit=False, positional=False)
+        d.update(kw)
+        out.append(d)
+    lam4 = [0.05, 0.6, 8.0, 100.0]
+    # ---- gridsearch (keep_best): the model left in `self`; with return_scores every candidate model as well
+    add(entry='gridsearch', model='LinearGAM', weights='pos', grid=dict(lam=lam4), return_scores=True)
+    add(entry='gridsearch', model='LinearGAM', terms='sl', weights='zeros', grid=dict(lam=[[0.1, 10.0], [0.0, 3.0]]), y_scale=1e-6, prefit=True)
+    add(entry='gridsearch', model='LogisticGAM', weights='int', grid=dict(lam=lam4), positional=True)
+    add(entry='gridsearch', model='PoissonGAM', exposure=True, weights='pos', grid=dict(lam=lam4), return_scores=True)
+    add(entry='gridsearch', model='PoissonGAM', exposure=True, grid=dict(lam=lam4), prefit=True)
+    add(entry='gridsearch', model='PoissonGAM', terms='s', exposure=True, weights='int', grid=dict(lam=[0.3, 30.0], n_splines=[8, 14]), positional=True)
+    add(entry='gridsearch', model='PoissonGAM', weights='pos', grid=dict(lam=lam4))
+    add(entry='gridsearch', model='PoissonGAM', terms='sl', grid=dict(lam=lam4), positional=True)
+    add(entry='gridsearch', model='GammaGAM', weights='pos', grid=dict(lam=lam4), y_scale=1e4, return_scores=True)
+    add(entry='gridsearch', model='InvGaussGAM', terms='s', weights='int', grid=dict(lam=lam4))
+    add(entry='gridsearch', model='ExpectileGAM', expectile=0.9, weights='pos', grid=dict(lam=lam4), return_scores=True)
+    add(entry='gridsearch', model='ExpectileGAM', expectile=0.2, terms='s', grid=dict(lam=[0.3, 30.0], n_splines=[8, 14]), y_scale=1e-6, prefit=True)
+    add(entry='gridsearch', model='GAM normal/log', weights='pos', grid=dict(lam=lam4))
+    add(entry='gridsearch', model='GAM poisson/log', terms='sl', weights='int', grid=dict(lam=lam4), positional=True)
+    add(entry='gridsearch', model='GAM gamma/identity', terms='s', weights='pos', grid=dict(lam=lam4), y_scale=1e-6)
+    # ---- ExpectileGAM.fit_quantile: search ended by tol / by max_iter, on a fresh and on an already fitted model
+    add(entry='fit_quantile', model='ExpectileGAM', terms='s', quantile=0.9, max_iter=20, tol_q=0.01)
+    add(entry='fit_quantile', model='ExpectileGAM', terms='s', quantile=0.95, max_iter=3, tol_q=1e-3)
+    add(entry='fit_quantile', model='ExpectileGAM', quantile=0.05, max_iter=2, tol_q=1e-3, weights='pos')
+    add(entry='fit_quantile', model='ExpectileGAM', quantile=0.9, max_iter=1, tol_q=1e-3, prefit=True)
+    add(entry='fit_quantile', model='ExpectileGAM', terms='sl', expectile=0.8, quantile=0.3, max_iter=2, tol_q=1e-3, weights='int', y_scale=1e-6, prefit=True)
+    add(entry='fit_quantile', model='ExpectileGAM', quantile=0.5, max_iter=20, tol_q=0.08)
+    add(entry='fit_quantile', model='ExpectileGAM', terms='s', quantile=0.75, max_iter=20, tol_q=0.01, weights='zeros', y_scale=1e4, prefit=True)
+    add(entry='fit_quantile', model='ExpectileGAM', terms='s', expectile=0.3, quantile=0.8, max_iter=1, tol_q=1e-3, positional=True)
+    add(entry='fit_quantile', model='ExpectileGAM', quantile=0.2, max_iter=5, tol_q=1e-4, weights='pos', prefit=True, positional=True)
+    # ---- fit with positional arguments
+    add(entry='fit', model='LinearGAM', weights='pos', positional=True)
+    add(entry='fit', model='PoissonGAM', exposure=True, weights='pos', positional=True)
+    add(entry='fit', model='PoissonGAM', terms='s', exposure=True, positional=True)
+    add(entry='fit', model='ExpectileGAM', expectile=0.9, weights='int', positional=True)
+    return out
+
+
+def _entry_worker(ec):
+    """obtain fitted model(s) through the entry point of `ec` and evaluate the NumPy oracle at each model's coef_ with the
+    model's OWN settings (basis, penalty matrix = its lam and penalties, expectile) on the data that were passed"""
+    import contextlib
+    import io
+    import warnings
+    warnings.filterwarnings('ignore')
+    pygam = common.import_pygam()
+    from pygam import s as s_, l as l_
+    clsname, dist, link, levels = _ENTRY_CLS[ec['model']]
+    rs = np.random.default_rng(ec['seed'])
+    n = ec['n']
+    X = np.column_stack([np.sort(rs.uniform(0.0, 10.0, n)), rs.uniform(-1.0, 1.0, n)])
+    eta = np.sin(X[:, 0]) + 0.5 * X[:, 1]
+    y = fitgen._response(rs, dist, link, levels, eta)
+    if dist in ('normal', 'gamma'):
+        y = y * ec['y_scale']
+    w = {'none': lambda: None, 'pos': lambda: rs.choice([0.25, 0.5, 1.0, 1.5, 2.0, 3.0], size=n),
+         'int': lambda: rs.integers(1, 4, size=n).astype(float),
+         'zeros': lambda: rs.choice([0.0, 1.0, 2.0], size=n, p=[0.2, 0.5, 0.3])}[ec['weights']]()
+    expo = None
+    if ec['exposure']:
+        expo = rs.choice([0.5, 1.0, 2.0, 3.0, 7.5], size=n)
+        y = rs.poisson(np.exp(0.6 * eta + 0.5) * expo).astype(float)
+    # normal / identity models (one step, or finitely many for expectiles) keep the default intercept; the others are specified without the directions that only the
+    # sqrt(eps) ridge identifies (intercept next to a spline, two derivative-penalised splines): there the relative change
+    # of coef_ stalls at ~ eps / sqrt(eps) = 1e-8 > tol and no convergence is reported, so nothing would be judged
+    intercept = (dist, link) == ('normal', 'identity')
+    terms = {'s': lambda: s_(0, n_splines=12),
+             'ss': lambda: s_(0, n_splines=10) + s_(1, n_splines=6, lam=2.0, penalties=('derivative' if intercept else 'l2')),
+             'sl': lambda: s_(0, n_splines=9, lam=0.3) + l_(1, lam=0.0)}[ec['terms']]()
+    if ec['terms'] == 's':
+        X = X[:, :1]
+    kw = dict(tol=1e-10, max_iter=150, fit_intercept=intercept)
+    if clsname == 'GAM':
+        kw.update(distribution=dist, link=link)
+    if ec['expectile'] is not None:
+        kw['expectile'] = ec['expectile']
+    gam = getattr(pygam, clsname)(terms, **kw)
+    # the arguments of the data: keyword or positional, in the documented order (X, y[, exposure], weights)
+    is_pois = clsname == 'PoissonGAM'
+    if ec['positional']:
+        dargs = (X, y, expo, w) if is_pois else (X, y, w)
+        dkw = {}
+    else:
+        dargs = (X, y)
+        dkw = dict(weights=w)
+        if is_pois:
+            dkw['exposure'] = expo
+    res = dict(case=ec, status='ok', msg='', models=[])
+    buf = io.StringIO()
+    models = []
+    # (the progress bar of gridsearch writes to the process's stderr: silenced at the descriptor, in this pool process only)
+    import os
+    sys_err = os.dup(2)
+    devnull = os.open(os.devnull, os.O_WRONLY)
+    os.dup2(devnull, 2)
+    try:
+        with warnings.catch_warnings(), contextlib.redirect_stdout(buf):
+            warnings.simplefilter('ignore')
+            if ec['prefit']:
+                gam.fit(*dargs, **dkw)
+            if ec['entry'] == 'fit':
+                ret = gam.fit(*dargs, **dkw)
+                models = [('self', gam)]
+            elif ec['entry'] == 'gridsearch':
+                gs = dict(ec['grid'])
+                if ec.get('return_scores'):
+                    gs['return_scores'] = True
+                ret = gam.gridsearch(*dargs, **dkw, **gs)
+                models = [('self', gam)]
+                if ec.get('return_scores'):
+                    models += [('candidate %d' % i_, g_) for i_, g_ in enumerate(ret.keys()) if g_ is not gam]
+            else:
+                if ec['positional']:
+                    ret = gam.fit_quantile(X, y, ec['quantile'], ec['max_iter'], ec['tol_q'], w)
+                else:
+                    ret = gam.fit_quantile(X, y, quantile=ec['quantile'], max_iter=ec['max_iter'], tol=ec['tol_q'], weights=w)
+                models = [('self', gam)]
+    except ValueError as e:
+        res.update(status='ValueError', msg=str(e)[:200])
+        return res
+    except Exception as e:  # noqa
+        res.update(status=type(e).__name__, msg=str(e)[:300])
+        return res
+    finally:
+        os.dup2(sys_err, 2)
+        os.close(sys_err)
+        os.close(devnull)
+    # the criterion of the data that were passed (documented meaning of exposure: rate y / e observed with weight w * e)
+    yv = np.asarray(y, dtype=float)
+    wv = np.ones(n) if w is None else np.asarray(w, dtype=np.float32).astype(float)
+    if expo is not None:
+        wv = wv * expo
+        yv = yv / expo
+    keep = np.ones(n, dtype=bool)
+    for name, g in models:
+        mr = dict(name=name)
+        res['models'].append(mr)
+        if not getattr(g, '_is_fitted', False) or 'diffs' not in getattr(g, 'logs_', {}) or not len(g.logs_['diffs']):
+            mr['status'] = 'not-fitted'
+            continue
+        coef = np.asarray(g.coef_, dtype=float).ravel()
+        mr.update(status='ok', converged=bool(g.logs_['diffs'][-1] < g.tol), last_diff=float(g.logs_['diffs'][-1]),
+                  lam=[float(v) for v in np.ravel(np.asarray(g.lam, dtype=float))], m=len(coef), n=n)
+        if not np.isfinite(coef).all():
+            mr['status'] = 'nonfinite-coef'
+            continue
+        B = np.asarray(g.terms.build_columns(X).todense(), dtype=float)
+        A = np.asarray(g.terms.build_penalties().todense(), dtype=float) + np.sqrt(EPS) * np.eye(len(coef))
+        tau = None
+        if clsname == 'ExpectileGAM':
+            tau = float(g.expectile)            # the model's own expectile, whatever the search did to it
+            mr['expectile'] = tau
+            if ec['entry'] == 'fit_quantile':
+                ratio = float(np.mean(B @ coef > yv))
+                mr['ended_by'] = 'tol' if abs(ratio - ec['quantile']) <= ec['tol_q'] else 'max_iter'
+        cn = np.linalg.norm(B, axis=0)
+        mr['col_ratio'] = float(cn.max() / np.median(cn[cn > 0])) if (cn > 0).any() else 1.0
+        mr['pred'] = np.asarray(g.predict_mu(X), dtype=float)
+        if _oracle(mr, B, A, yv, wv, keep, coef, dist, link, float(levels), tau) is None:
+            continue
+        if dist == 'normal' and link == 'identity' and tau is None:
+            _closed_form(mr, B, A, yv, wv)
+        for k_ in ('pred', 'closed_form_pred'):
+            if k_ in mr:
+                mr[k_] = np.asarray(mr[k_])
     return res
 
 
@@ -269,9 +500,14 @@ def run(ctx):
     ctx.stream(st, 'model PIRLS step at the implementation coef_ (Float driver): relative score residual and relative linear-predictor change <= 1e-6 for converged fits')
     ctx.stream(st_cf, 'normal/identity: fitted values == model closed form (solution of the penalised normal equations) to 1e-7')
     ctx.stream(st_con, "contracts of the solve validated on the loop locals: Q'Q=I, WB=QR, E'E=S+P+C, [R;E]=U1..diag(d)V', U,V orthogonal, d>0")
+    st_en = 'fit.entrypoints'
+    ctx.stream(st_en, "fitted models obtained through the other public entry points (the model kept by gridsearch and every candidate it returns, "
+                      "for several classes incl. PoissonGAM with exposure and weights; ExpectileGAM.fit_quantile ended by tol and by max_iter, on fresh and "
+                      "already fitted models; fit with positional arguments): NumPy oracle at coef_ with the model's own expectile, lam and penalties")
     ctx.stream(st_or, 'NumPy oracle on the real code: relative gradient of the penalised deviance / asymmetric LS criterion at coef_ (analytic, checked by central differences); lstsq closed form')
     ctx.extra['rule'] = ('cases = model class / distribution x link pair x random term program x n relative to m (m-1, m, m+1, 12, 60, 200) x weights mode x lam mode; '
-                         'distinct = distinct case dicts; non-trivial = converged fit with a non-default ingredient (weights, n <= m, constraints, non-default lam, non-canonical pair)')
+                         'distinct = distinct case dicts; non-trivial = converged fit with a non-default ingredient (weights, n <= m, constraints, non-default lam, non-canonical pair); '
+                         'fit.entrypoints: a fixed list of gridsearch / fit_quantile / positional-fit calls (data seeds follow the run), every model handed back as converged is a case')
     ncase = 52 if ctx.tier == 'quick' else 650
     cases = fitgen.gen_cases(ctx.subrng('cases'), ncase, ctx.tier)
     # in every run: one badly scaled but well-posed design (raw timestamp in a linear term) per class / link pair
@@ -289,8 +525,43 @@ def run(ctx):
     cases += [dict(c, forced='small-units', history='none', feature_units='plain', constraints=False, n_mode='mid', lam_mode='default',
                    weights_mode='none', y_scale=ys, expectile=(tau_ if c['cls'] == 'ExpectileGAM' else None), seed=c['seed'] + 2 + j_)
               for j_, (ys, tau_) in enumerate([(1e-12, 0.9), (1e-9, 0.1), (1e-12, 0.95)]) for c in multi]
+    ecases = _entry_cases(ctx.subrng('entrypoints'))
     with mp.get_context('fork').Pool(min(16, len(cases))) as pool:
+        eres_async = pool.map_async(_entry_worker, ecases, chunksize=1)
         results = pool.map(_worker, cases, chunksize=1)
+        eresults = eres_async.get()
+    # ---- fit.entrypoints: every model that an entry point hands back as fitted and converged is judged like a fit
+    for er in eresults:
+        ec = er['case']
+        label = '%s %s' % (ec['model'], ec['entry'])
+        ctx.count('entry point: status', '%s: %s' % (ec['entry'], er['status']))
+        if er['status'] == 'ValueError':
+            continue
+        if er['status'] != 'ok':
+            ctx.case(st_en, dict(entry=ec), nontrivial=True)
+            ctx.fail(st_en, dict(kind='exception', entry=ec['entry'], cls=ec['model'], exc=er['status']), dict(entry=ec), observed='%s: %s' % (er['status'], er['msg']),
+                     expected='a fitted model or a ValueError', oracle='a public fitting entry point must not raise an unrelated exception')
+            continue
+        for mr in er['models']:
+            if mr['status'] != 'ok' or not mr.get('converged'):
+                ctx.count('entry point: models not judged', '%s: %s' % (label, mr['status'] if mr['status'] != 'ok' else 'not converged'))
+                continue
+            sig = dict(entry=ec, model=mr['name'])
+            small = dict(entry=ec, model=mr['name'], lam=mr['lam'], expectile=mr.get('expectile'), ended_by=mr.get('ended_by'), n=mr['n'], m=mr['m'],
+                         last_diff=mr['last_diff'], be_norm=mr['be_norm'], newton_lp=mr['newton_lp'], cond=mr['cond'])
+            ctx.case(st_en, sig, nontrivial=True, sample=small)
+            ctx.count('entry point: judged models', '%s%s%s%s' % (label, ' +exposure' if ec['exposure'] else '', ' +weights' if ec['weights'] != 'none' else '',
+                                                               ' (fitted before)' if ec['prefit'] else ''))
+            if ec['entry'] == 'fit_quantile':
+                ctx.count('fit_quantile ended by', '%s (%s model)' % (mr.get('ended_by'), 'already fitted' if ec['prefit'] else 'fresh'))
+            thr, judged_ii, judged_iii, bad = _oracle_verdict(mr)
+            if not (judged_ii or judged_iii):
+                ctx.count('entry point: models not judged', '%s: ill-conditioned ((ii) not judged)' % label)
+            if bad:
+                ctx.fail(st_en, dict(kind='stationarity', entry=ec['entry'], cls=ec['model'], model=mr['name']), small,
+                         observed=dict(reason=bad, lam=mr['lam'], expectile=mr.get('expectile'), ended_by=mr.get('ended_by'), last_diff=mr['last_diff']),
+                         expected="stationary point of the penalised criterion defined by the model's own basis, penalty matrix and expectile on the data passed to the entry point",
+                         oracle='NumPy gradient of the penalised deviance / asymmetric least-squares criterion at coef_')
     ops, idx = [], []
     for i, r in enumerate(results):
         c = r['case']
@@ -335,27 +606,11 @@ def run(ctx):
         # only badly SCALED (a raw timestamp in a linear term: cond_raw ~ 1e25, equilibrated cond ~ 1e3) is judged by the
         # coarse criterion (iii): the equilibrated backward error and the Newton step must stay below 1e-3 (clean tree:
         # <= 2.2e-5 on such problems; a solve that drops directions is off by O(1))
-        thr = max(1e-6, 10 * EPS * r.get('cond_raw', r['cond']))
-        judged_ii = thr <= 1e-3
-        # (iii) is for problems whose raw conditioning comes from the SCALE OF THE COLUMNS (largest column norm >= 1e6 x the median one);
-        # a raw condition number inflated by the working weights (means spread over 12 decades) is genuine ill-conditioning
-        judged_iii = (not judged_ii) and 10 * EPS * r['cond'] <= 1e-3 and r.get('col_ratio', 1.0) >= 1e6
+        thr, judged_ii, judged_iii, oracle_bad = _oracle_verdict(r)
         ctx.count('conditioning', 'cond<=4.5e11 (judged)' if judged_ii else ('badly scaled only: coarse criterion (iii)' if judged_iii else 'ill-conditioned ((ii) not judged)'))
         fd_ok = all(abs(num - ana) <= 1e-4 * sc + 1e-6 * abs(ana) for (num, ana, sc) in r['fd'])
-        oracle_bad = None
-        if not (r['be_norm'] <= 1e-6):
-            oracle_bad = 'normwise backward error of the score equation %.3g > 1e-6' % r['be_norm']
-        elif judged_ii and not (r['newton_lp'] <= thr):
-            oracle_bad = 'remaining Newton step moves the linear predictor by %.3g > %.3g (relative)' % (r['newton_lp'], thr)
-        elif judged_iii and not (r['newton_lp'] <= 1e-3 and r.get('be_eq', 0.0) <= 1e-3):
-            oracle_bad = ('badly scaled but well-posed problem (equilibrated cond %.3g): Newton step moves the linear predictor by %.3g, equilibrated backward error %.3g (> 1e-3)'
-                          % (r['cond'], r['newton_lp'], r.get('be_eq', 0.0)))
         if not fd_ok:
             ctx.count('oracle', 'fd-mismatch of the analytic gradient (non-smooth point or cancellation)')
-        if 'closed_form_pred' in r and oracle_bad is None:
-            dcf = float(np.abs(r['closed_form_pred'] - r['pred']).max() / (max(np.abs(r['pred']).max(), np.abs(r['closed_form_pred']).max()) + 1e-300))
-            if dcf > max(1e-6, thr):
-                oracle_bad = 'fitted values differ from the closed-form penalised WLS solution by %.3g (relative)' % dcf
         if oracle_bad:
             ctx.fail(st_or, dict(kind='stationarity', cls=c['cls'], pair='%s/%s' % (c['dist'], c['link']), nm=('n<m' if r['n'] < r['m'] else 'n>=m')), dict(case=c, n=r['n'], m=r['m']),
                      observed=dict(reason=oracle_bad, n_iter=r['n_iter'], last_diff=r['last_diff']), expected='stationary point of the penalised criterion / closed-form solution',
